@@ -21,6 +21,9 @@
 #   (I12) a string literal where a `List Char` (a str as the list of its characters: iteration, `len`, `in`) is expected: its characters
 #   (I13) `a.__getitem__(key)` for a tuple key of ints                Py.ndGet a [k0, …]     (fallible = IndexError)
 #   (I14) `any(p(x) for x in l)` / `all(p(x) for x in l)` with a pure test `p`   l.any / l.all
+#   (I16) `os.path.splitext(p)[-1]` on a str                        Py.splitExt p          (the extension, `""` if none)
+#   (I17) `C(args…, **kwargs)` for a class `C` of the same module (a codec-backed reader, not called as a translated function): the record
+#         (class name, kwargs) — which class is constructed with which keyword arguments; the positional arguments are the codec's business
 # TRUSTED GLUE (every key is the exact source text; if it changes the translator fails), listed in design_notes/session4/imgio.md.
 MODULE_MODEL_IMPORTS["AlgoImgIo"] = ["PyResample", "PyImgIo"]
 TYPE_HEADS["NdArr"] = 1
@@ -137,10 +140,26 @@ def _io_expr(tr, e, want):
         if _io_is_arr(tb) and ta == tb[1]:
             return s1 + s2, f"(Py.mulScalarL {a} {b})", tb
         return None
+    # (I16)
+    if (isinstance(e, ast.Subscript) and ast.unparse(e.slice) == "-1" and isinstance(e.value, ast.Call)
+            and ast.unparse(e.value.func) == "os.path.splitext" and len(e.value.args) == 1 and not e.value.keywords):
+        s0, c, t = tr.tr(e.value.args[0])
+        return (s0, f"(Py.splitExt {c})", "String") if t == "String" else None
     if not isinstance(e, ast.Call):
         return None
     f = ast.unparse(e.func)
     args = e.args
+    # (I17)
+    if (isinstance(e.func, ast.Name) and len(e.keywords) == 1 and e.keywords[0].arg is None and isinstance(e.keywords[0].value, ast.Name)
+            and f not in tr.table):
+        p = REPO / tr.spec.file
+        if p not in _AST_CACHE:
+            _AST_CACHE[p] = ast.parse(p.read_text())
+        if any(isinstance(nd, ast.ClassDef) and nd.name == f for nd in _AST_CACHE[p].body):
+            s0, c, t = tr.tr(e.keywords[0].value)
+            if isinstance(t, tuple) and t[0] == "Dict" and t[1] == "String":
+                return s0, f"({json.dumps(f)}, {c})", ("Prod", "String", t)
+        return None
     if e.keywords:
         return None
     # (I14) `any(p(x) for x in l)` / `all(…)` with a pure test: List.any / List.all (the comprehension variable is local to the test)
@@ -283,3 +302,12 @@ spec(lean="save_tiff", module="AlgoImgIo", file=_IO_FILE, func="save_tiff", call
                  "tifffile.imwrite(fname, data, **kwargs)": "return (data, axes, photometric)"},
      doc="`swcgeom/images/io.py::save_tiff`, `data` an ndarray: what is handed to `tifffile.imwrite` (the array, the `axes` metadata, the photometric "
          "keyword); the compression / metadata keyword bookkeeping is not translated")
+
+# Trusted glue: `os.path.exists(fname)` / `TeraflyImageStack.is_root(fname)` (the file system) are the parameters `found` / `is_root`;
+# `kwargs` holds the `dtype` keyword only (the other keywords are forwarded untouched).
+spec(lean="read_imgs", module="AlgoImgIo", file=_IO_FILE, func="read_imgs", callee=["read_imgs"],
+     params=["fname", "found", "is_root", "kwargs"],
+     vars={"fname": "String", "found": "Bool", "is_root": "Bool", "kwargs": "Dict String DType"}, ret="String × Dict String DType",
+     subst={"os.path.exists(fname)": ("v.found", "Bool"), "TeraflyImageStack.is_root(fname)": ("v.is_root", "Bool")},
+     doc="`swcgeom/images/io.py::read_imgs`: which reader class is constructed with which keyword arguments (`os.path.exists(fname)` and "
+         "`TeraflyImageStack.is_root(fname)` are the parameters `found`, `is_root`; no result = ValueError)")
